@@ -223,18 +223,17 @@ func (s *Log) Nice(o TickOptions) {
 		return
 	}
 	firstN, lastN, base := s.spacingAtLevel(level, true)
-	if math.IsInf(base, 0) {
-		// The only levels with few enough ticks overflow
-		// float64, so there are no nice bounds.
-		return
-	}
+	// When the true effective base is beyond every finite value,
+	// spacingAtLevel substitutes the largest one, and 1 is the only
+	// power of the true base that can be represented.
+	overflow := base >= math.MaxFloat64
 	// Move each bound outwards only, and only to a positive finite
 	// value.
 	_, emin, emax := s.ebounds()
-	if min := math.Pow(base, firstN); 0 < min && min <= emin {
+	if min := math.Pow(base, firstN); 0 < min && min <= emin && !(overflow && firstN != 0) {
 		emin = min
 	}
-	if max := math.Pow(base, lastN); emax <= max && !math.IsInf(max, 0) {
+	if max := math.Pow(base, lastN); emax <= max && !math.IsInf(max, 0) && !(overflow && lastN != 0) {
 		emax = max
 	}
 	s.Min, s.Max = emin, emax
